@@ -64,6 +64,10 @@ func (ls *listenServer) OnCReact(r *core.Msg, c core.CConn) (out []byte, action 
 
 	core.GlobalStats.ReqCmdIncr(r.Type)
 
+	// resolve a connection for every fragment first: if any fragment cannot be routed the whole
+	// request is answered with an error and must not leave fragments behind on other backends
+	frags := make([]*core.Frag, 0, len(r.Body))
+	conns := make([]core.SConn, 0, len(r.Body))
 	for slot, frag := range r.Body {
 		if r.Type == codec.ReqAuth {
 			if len(ls.Password) < 1 {
@@ -99,13 +103,17 @@ func (ls *listenServer) OnCReact(r *core.Msg, c core.CConn) (out []byte, action 
 				return codec.ErrUnKnown.Bytes(), core.None
 			}
 		}
-		frag.Owner = c
 
 		logging.Debugfunc(func() string {
 			return fmt.Sprintf("[%dm|%df][%dc|%ds] key '%s' maps to server '%s' in slot %d", r.Id, frag.Id, c.Fd(), sConn.Fd(), frag.Key, addr, slot)
 		})
+		frags = append(frags, frag)
+		conns = append(conns, sConn)
+	}
 
-		sConn.EnqueueOutFrag(frag)
+	for i, frag := range frags {
+		frag.Owner = c
+		conns[i].EnqueueOutFrag(frag)
 	}
 
 	c.EnqueueInMsg(r)
